@@ -33,40 +33,131 @@ var intrinsics = map[string]intrinsic{}
 
 const apiPkg = "github.com/markusmobius/go-domdistiller/internal/zzverif"
 
+func popInt(m map[string][]int, name string, def int) int {
+	if v := m[name]; len(v) > 0 {
+		m[name] = v[1:]
+		return v[0]
+	}
+	return def
+}
+
 func init() {
-	intrinsics[apiPkg+".NondetBool"] = func(fr *frame, a []value) value { return X.fresh(a[0].(string), "Bool") }
-	intrinsics[apiPkg+".NondetInt"] = func(fr *frame, a []value) value { return X.fresh(a[0].(string), "Int") }
-	intrinsics[apiPkg+".NondetString"] = func(fr *frame, a []value) value {
+	intrinsics[apiPkg+".NondetBool"] = func(fr *frame, a []value) value {
+		name := a[0].(string)
+		if c := X.Concrete; c != nil {
+			r := false
+			if v := c.Bools[name]; len(v) > 0 {
+				r, c.Bools[name] = v[0], v[1:]
+			}
+			return r
+		}
+		s := X.fresh(name, "Bool")
+		X.inputs = append(X.inputs, inputRec{'b', name, []value{s}})
+		return s
+	}
+	intrinsics[apiPkg+".NondetInt"] = func(fr *frame, a []value) value {
+		name, lo, hi := a[0].(string), asInt64(a[1]), asInt64(a[2])
+		if c := X.Concrete; c != nil {
+			return popInt(c.Ints, name, int(lo))
+		}
+		if lo > hi {
+			panic(pathAbort{"empty range"})
+		}
+		if lo == hi {
+			X.inputs = append(X.inputs, inputRec{'i', name, []value{int(lo)}})
+			return int(lo)
+		}
+		s := X.fresh(name, "Int")
+		s.Lo, s.Hi, s.Bounded = lo, hi, true
+		X.assert(fmt.Sprintf("(and (<= %s %s) (<= %s %s))", intLit(lo), s.T, s.T, intLit(hi)))
+		X.inputs = append(X.inputs, inputRec{'i', name, []value{s}})
+		return s
+	}
+	intrinsics[apiPkg+".Choose"] = func(fr *frame, a []value) value {
+		name, n := a[0].(string), int(asInt64(a[1]))
+		if c := X.Concrete; c != nil {
+			return popInt(c.Ints, name, 0)
+		}
+		if n <= 0 {
+			panic(pathAbort{"empty choice"})
+		}
+		k := X.choose(n)
+		X.inputs = append(X.inputs, inputRec{'i', name, []value{k}})
+		return k
+	}
+	intrinsics[apiPkg+".Param"] = func(fr *frame, a []value) value {
+		if v, ok := X.Params[a[0].(string)]; ok {
+			return v
+		}
+		return int(asInt64(a[1]))
+	}
+	nondetString := func(fr *frame, a []value) value {
 		name, max := a[0].(string), int(asInt64(a[1]))
 		alphabet := ""
 		if len(a) > 2 {
 			alphabet = a[2].(string)
 		}
-		// the length is a case split (fork), the bytes are solver variables
-		n := X.fresh(name+".len", "Int")
-		X.assert(fmt.Sprintf("(and (<= 0 %s) (<= %s %d))", n.T, n.T, max))
-		k := int(concretizeIndex(n, max+1, "length"))
+		if c := X.Concrete; c != nil {
+			var bs []int
+			if v := c.Strs[name]; len(v) > 0 {
+				bs, c.Strs[name] = v[0], v[1:]
+			}
+			b := make([]byte, len(bs))
+			for i, x := range bs {
+				b[i] = byte(x)
+			}
+			return string(b)
+		}
+		// the length is a structural case split, the bytes are solver variables
+		k := X.choose(max + 1)
 		bs := make([]value, k)
 		for i := range bs {
 			c := X.fresh(fmt.Sprintf("%s[%d]", name, i), "Int")
+			c.Lo, c.Hi, c.Bounded = 1, 127, true
 			if alphabet == "" {
 				X.assert(fmt.Sprintf("(and (<= 1 %s) (<= %s 127))", c.T, c.T))
+			} else if len(alphabet) == 1 {
+				bs[i] = alphabet[0]
+				continue
 			} else {
-				var alts []string
+				alts := make([]string, 0, len(alphabet))
+				seen := map[byte]bool{}
 				for j := 0; j < len(alphabet); j++ {
-					alts = append(alts, fmt.Sprintf("(= %s %d)", c.T, alphabet[j]))
+					if !seen[alphabet[j]] {
+						seen[alphabet[j]] = true
+						alts = append(alts, fmt.Sprintf("(= %s %d)", c.T, alphabet[j]))
+					}
 				}
 				X.assert(or(alts...))
 			}
 			bs[i] = c
 		}
+		X.inputs = append(X.inputs, inputRec{'s', name, append([]value(nil), bs...)})
 		return mkStr(bs)
 	}
-	intrinsics[apiPkg+".NondetStringIn"] = intrinsics[apiPkg+".NondetString"]
+	intrinsics[apiPkg+".NondetString"] = nondetString
+	intrinsics[apiPkg+".NondetStringIn"] = nondetString
 	intrinsics[apiPkg+".Assume"] = func(fr *frame, a []value) value { X.assume(a[0]); return nil }
-	intrinsics[apiPkg+".Assert"] = func(fr *frame, a []value) value { X.assertProp(a[0], a[1].(string)); return nil }
+	intrinsics[apiPkg+".Assert"] = func(fr *frame, a []value) value { X.assertProp(a[0], conc(a[1])); return nil }
 	intrinsics[apiPkg+".MapOrderAll"] = func(fr *frame, a []value) value { MapOrderAll = a[0].(bool); return nil }
 	intrinsics[apiPkg+".Cover"] = func(fr *frame, a []value) value { X.Covered[a[0].(string)]++; return nil }
+	intrinsics[apiPkg+".Symbolic"] = func(fr *frame, a []value) value { return X.Concrete == nil }
+	intrinsics[apiPkg+".Observe"] = func(fr *frame, a []value) value {
+		var parts []string
+		for _, x := range a[0].([]value) {
+			v := x.(iface).v
+			if isSym(v) || isSymStr(v) {
+				parts = append(parts, "<sym>")
+			} else {
+				parts = append(parts, toString(v))
+			}
+		}
+		X.Observed = append(X.Observed, strings.Join(parts, "|"))
+		return nil
+	}
+	for _, n := range []string{"LoadReplay", "DumpDrawn", "Report"} {
+		intrinsics[apiPkg+"."+n] = func(fr *frame, a []value) value { return nil }
+	}
 	intrinsics["regexp.MustCompile"] = func(fr *frame, a []value) value {
 		v := value(native{regexp.MustCompile(a[0].(string))})
 		return &v
@@ -81,69 +172,125 @@ func init() {
 }
 
 type Options struct {
-	Interp   func(pkgPath string) bool
-	InitPkgs []*ssa.Package // in dependency order
-	MaxSteps int
-	MaxPaths int
+	Interp     func(pkgPath string) bool
+	InitPkgs   []*ssa.Package // in dependency order
+	MaxSteps   int
+	MaxPaths   int      // path budget of this call; what is left is returned in Pending
+	Params     map[string]int
+	Concrete   *Input
+	Canary     bool
+	Start      []string // work prefixes to start from (default: the empty prefix)
+	BFS        bool     // expand breadth-first (coordinator phase)
+	StopAtWork int      // BFS: stop once this many prefixes are open
 }
 
 type Report struct {
-	Paths, Infeasible, Decisions, Queries int
-	SolverTime, Wall                      time.Duration
-	Violations                            []Violation
-	Unsupported                           []string
-	Covered                               map[string]int
-	Funcs                                 []string
+	Paths       int            `json:"paths"`
+	Infeasible  int            `json:"infeasible"`
+	Decisions   int            `json:"decisions"`
+	Forks       int            `json:"forks"`
+	Queries     int            `json:"queries"`
+	Obligations int            `json:"obligations"`
+	Discharged  int            `json:"discharged"`
+	SolverS     float64        `json:"solver_s"`
+	WallS       float64        `json:"wall_s"`
+	Violations  []Violation    `json:"violations"`
+	VCount      map[string]int `json:"vcount"`
+	Unsupported []string       `json:"unsupported"`
+	Covered     map[string]int `json:"covered"`
+	Funcs       map[string]int `json:"funcs"`
+	Pending     []string       `json:"pending"`
+	Samples     []string       `json:"samples"`
+	Observed    []string       `json:"observed,omitempty"`
+	MaxStepsSeen int           `json:"max_steps_seen"`
 }
 
-// Explore runs harness on every feasible path (re-execution from scratch with
-// a decision prefix per path).
+// Explore runs harness on every feasible path below the start prefixes
+// (re-execution from scratch with a decision prefix per path).
 func Explore(prog *ssa.Program, harness *ssa.Function, opt Options, solver *Solver) *Report {
 	t0 := time.Now()
-	e := &Explorer{S: solver, MaxSteps: opt.MaxSteps, Covered: map[string]int{}, funcs: map[string]int{}}
+	e := &Explorer{S: solver, MaxSteps: opt.MaxSteps, Covered: map[string]int{}, funcs: map[string]int{},
+		vcount: map[string]int{}, Params: opt.Params, Canary: opt.Canary}
 	X = e
-	e.work = [][]bool{nil}
-	if ep := prog.ImportedPackage("errors"); ep != nil {
-		errT = types.NewPointer(ep.Type("errorString").Object().Type())
+	if len(opt.Start) == 0 {
+		e.work = [][]bool{nil}
+	}
+	for _, s := range opt.Start {
+		e.work = append(e.work, parseTrace(s))
 	}
 	rep := &Report{}
+	q0, st0 := solver.Queries, solver.Time
 	for len(e.work) > 0 && e.Paths < opt.MaxPaths {
-		pfx := e.work[len(e.work)-1]
-		e.work = e.work[:len(e.work)-1]
-		e.prefix, e.pos, e.trace, e.consts, e.nameCount, e.steps = pfx, 0, nil, nil, map[string]int{}, 0
+		if opt.BFS && opt.StopAtWork > 0 && len(e.work) >= opt.StopAtWork {
+			break
+		}
+		var pfx []bool
+		if opt.BFS {
+			pfx, e.work = e.work[0], e.work[1:]
+		} else {
+			pfx, e.work = e.work[len(e.work)-1], e.work[:len(e.work)-1]
+		}
+		e.prefix, e.pos, e.trace, e.consts, e.inputs, e.nameCount, e.steps = pfx, 0, nil, nil, nil, map[string]int{}, 0
 		e.pc = nil
+		e.Observed = nil
+		if opt.Concrete != nil {
+			c := *opt.Concrete
+			cp := newInput()
+			for k, v := range c.Bools {
+				cp.Bools[k] = append([]bool(nil), v...)
+			}
+			for k, v := range c.Ints {
+				cp.Ints[k] = append([]int(nil), v...)
+			}
+			for k, v := range c.Strs {
+				cp.Strs[k] = append([][]int(nil), v...)
+			}
+			e.Concrete = cp
+		}
 		MapOrderAll = false
-		frozenCells, frozenMaps = nil, nil
-		if Incremental {
-			solver.send("(push)")
-		}
+		resetMonitors()
+		solver.send("(push)")
 		res := runPath(prog, harness, opt)
-		if Incremental {
-			solver.send("(pop)")
+		if res == nil {
+			e.sample()
 		}
+		solver.send("(pop)")
 		e.Paths++
+		if e.steps > rep.MaxStepsSeen {
+			rep.MaxStepsSeen = e.steps
+		}
 		switch r := res.(type) {
 		case nil:
 		case pathAbort:
 			e.Infeasible++
 		case unsupported:
 			rep.Unsupported = append(rep.Unsupported, r.what)
+			if solver.dead {
+				solver.Restart()
+			}
 			e.work = nil // an encoding gap makes the run inconclusive: stop
-		default:
-			e.Violations = append(e.Violations, Violation{Msg: fmt.Sprintf("panic: %v", res), Trace: append([]bool(nil), e.trace...)})
+		case pathPanic:
+			// a Go panic of the program under test (or of the engine: replay decides)
+			e.Obligations++
+			e.record(Violation{Kind: r.kind, Msg: r.msg, Where: r.where, Input: r.input, Trace: traceString(e.trace)})
 		}
 	}
-	if len(e.work) > 0 {
-		rep.Unsupported = append(rep.Unsupported, fmt.Sprintf("path budget exhausted, %d prefixes pending", len(e.work)))
+	for _, w := range e.work {
+		rep.Pending = append(rep.Pending, traceString(w))
 	}
-	rep.Paths, rep.Infeasible, rep.Decisions = e.Paths, e.Infeasible, e.Decisions
-	rep.Queries, rep.SolverTime, rep.Wall = solver.Queries, solver.Time, time.Since(t0)
-	rep.Violations, rep.Covered = e.Violations, e.Covered
-	for f := range e.funcs {
-		rep.Funcs = append(rep.Funcs, f)
-	}
-	sort.Strings(rep.Funcs)
+	rep.Paths, rep.Infeasible, rep.Decisions, rep.Forks = e.Paths, e.Infeasible, e.Decisions, e.Forks
+	rep.Obligations, rep.Discharged = e.Obligations, e.Discharged
+	rep.Queries, rep.SolverS, rep.WallS = solver.Queries-q0, (solver.Time - st0).Seconds(), time.Since(t0).Seconds()
+	rep.Violations, rep.Covered, rep.VCount = e.Violations, e.Covered, e.vcount
+	rep.Funcs = e.funcs
+	rep.Samples = e.samples
+	rep.Observed = e.Observed
 	return rep
+}
+
+type pathPanic struct {
+	kind, msg, where string
+	input            *Input
 }
 
 func runPath(prog *ssa.Program, harness *ssa.Function, opt Options) (result interface{}) {
@@ -154,10 +301,17 @@ func runPath(prog *ssa.Program, harness *ssa.Function, opt Options) (result inte
 		goroutines: 1,
 		interpPkgs: opt.Interp,
 	}
-	if rt := prog.ImportedPackage("runtime"); rt != nil {
-		i.runtimeErrorString = rt.Type("errorString").Object().Type()
+	curInterp = i
+	i.runtimeErrorString = rtErrT
+	allPkgs := prog.AllPackages()
+	if Shadow != nil {
+		for _, p := range Shadow.AllPackages() {
+			if ShadowPkgs[p.Pkg.Path()] {
+				allPkgs = append(allPkgs, p)
+			}
+		}
 	}
-	for _, pkg := range prog.AllPackages() {
+	for _, pkg := range allPkgs {
 		if !opt.Interp(pkg.Pkg.Path()) {
 			continue
 		}
@@ -170,24 +324,56 @@ func runPath(prog *ssa.Program, harness *ssa.Function, opt Options) (result inte
 	}
 	defer func() {
 		if p := recover(); p != nil {
+			mk := func(kind, msg string) pathPanic {
+				where := X.targetWhere()
+				var in *Input
+				if X.Concrete != nil {
+					in = opt.Concrete
+				} else if !X.S.dead {
+					_, in = X.queryModel("")
+				}
+				return pathPanic{kind, msg, where, in}
+			}
 			switch p := p.(type) {
 			case pathAbort, unsupported:
 				result = p
+			case stepBudget:
+				result = mk("hang", "step budget exceeded (unwinding bound) in "+p.fn)
 			case targetPanic:
-				result = "target panic: " + toString(p.v)
+				result = mk("panic", "panic: "+toString(p.v))
 			case runtime.Error:
-				result = p.Error()
+				result = mk("panic", "panic: "+p.Error())
 			case string:
-				result = p
+				result = mk("panic", "panic: "+p)
 			default:
 				fmt.Fprintf(os.Stderr, "interpreter crash: %T %v\n", p, p)
 				panic(p)
 			}
 		}
 	}()
+	inInit = true
+	tInit := time.Now()
 	for _, pkg := range opt.InitPkgs {
 		call(i, nil, token.NoPos, pkg.Func("init"), nil)
 	}
+	InitTime += time.Since(tInit)
+	inInit = false
 	call(i, nil, token.NoPos, harness, nil)
 	return nil
+}
+
+type stepBudget struct{ fn string }
+
+var curInterp *interpreter
+var InitTime time.Duration
+var inInit bool
+
+// FuncList returns the executed functions of the interpreted universe, sorted.
+func FuncList(m map[string]int) []string {
+	var out []string
+	for f := range m {
+		out = append(out, f)
+	}
+	sort.Strings(out)
+	return out
 }
